@@ -30,6 +30,10 @@ func stampArgAlloc(v ssa.Value) ssa.Value {
 		return x
 	case *ssa.FreeVar:
 		return x
+	case *ssa.FieldAddr: // the stamp kept as a field of a small private struct
+		if _, ok := privateFieldCell(x); ok {
+			return x
+		}
 	}
 	return nil
 }
@@ -416,7 +420,11 @@ func checkStartupWalk(c *Ctx, rule string) {
 					}
 					addr := u.X
 					trueStores := 0
-					for _, st := range freeVarStoreInstrsAll(addr) {
+					flagStores := freeVarStoreInstrsAll(addr)
+					if fc, ok := privateFieldCell(addr); ok { // the flag kept as a field of the walk's own small struct
+						flagStores = p.fieldCellStores(fc)
+					}
+					for _, st := range flagStores {
 						if b, isC := constBool(st.Val); isC && b {
 							trueStores++
 							// that store must be on the mismatch (Equal false) side
@@ -681,6 +689,14 @@ func heightsCoupled(p *Program, fn *ssa.Function, stamp ssa.Value, rbArg ssa.Val
 func sameVar(a, b ssa.Value) bool {
 	if a == b {
 		return true
+	}
+	if fa, ok := a.(*ssa.FieldAddr); ok {
+		if fb, ok := b.(*ssa.FieldAddr); ok {
+			ca, okA := privateFieldCell(fa)
+			cb, okB := privateFieldCell(fb)
+			return okA && okB && ca == cb
+		}
+		return false
 	}
 	ra, rb := a, b
 	if fv, ok := a.(*ssa.FreeVar); ok {
